@@ -356,4 +356,195 @@ theorem refSeq_replicate (d : Nat → Bool) (k off : Nat) (s : List Nat) :
         -- one more `none` at the end makes no difference within the first k
         exact congrArg _ (take_pad _ k).symm
 
+theorem takeWhile_length_le (d : Nat → Bool) (l : List Nat) : (l.takeWhile d).length ≤ l.length := by
+  have := congrArg List.length (List.takeWhile_append_dropWhile (p := d) (l := l))
+  rw [List.length_append] at this; omega
+
+theorem dropWhile_eq_drop (d : Nat → Bool) (l : List Nat) : l.dropWhile d = l.drop (l.takeWhile d).length := by
+  induction l with
+  | nil => rfl
+  | cons a l ih =>
+    by_cases ha : d a = true
+    · rw [List.dropWhile_cons_of_pos ha, List.takeWhile_cons_of_pos ha, ih]; rfl
+    · rw [List.dropWhile_cons_of_neg ha, List.takeWhile_cons_of_neg ha]; rfl
+
+/-- the three shapes of one reference call -/
+def refHead (d : Nat → Bool) (off : Nat) (s : List Nat) : RefCall :=
+  let lead := (s.takeWhile d).length
+  let s1 := s.dropWhile d
+  let t := s1.takeWhile (fun c => !d c)
+  let s2 := s1.dropWhile (fun c => !d c)
+  if s1 = [] then { tok := none, next := off + lead, cut := none }
+  else if s2 = [] then { tok := some (off + lead, t), next := off + lead + t.length, cut := none }
+  else { tok := some (off + lead, t), next := off + lead + t.length + 1, cut := some (off + lead + t.length) }
+
+/-- the string the next call works on -/
+def refRest (d : Nat → Bool) (s : List Nat) : List Nat :=
+  ((s.dropWhile d).dropWhile (fun c => !d c)).drop 1
+
+theorem refSeq_cons (d : Nat → Bool) (rest : List (Nat → Bool)) (off : Nat) (s : List Nat) :
+    refSeq (d :: rest) off s = refHead d off s :: refSeq rest (refHead d off s).next (refRest d s) := by
+  simp only [refSeq, refHead, refRest]
+  by_cases h1 : s.dropWhile d = []
+  · simp [h1]
+  · by_cases h2 : (s.dropWhile d).dropWhile (fun c => !d c) = []
+    · simp [h1, h2]
+    · simp [h1, h2]
+
+
+theorem getD_of_drop (l : List Nat) (k x : Nat) (r : List Nat) (h : l.drop k = x :: r) : l.getD k 0 = x := by
+  have : (l.drop k)[0]? = some x := by rw [h]; rfl
+  rw [List.getElem?_drop] at this
+  simp only [Nat.add_zero] at this
+  simp [this]
+
+/-- everything the sequence lemmas need to know about ONE reference call -/
+theorem refHead_facts (d : Nat → Bool) (off : Nat) (s : List Nat) :
+    off ≤ (refHead d off s).next ∧ (refHead d off s).next ≤ off + s.length ∧
+    refRest d s = s.drop ((refHead d off s).next - off) ∧
+    (∀ c, (refHead d off s).cut = some c →
+      off ≤ c ∧ c + 1 = (refHead d off s).next ∧ c - off < s.length ∧ d (s.getD (c - off) 0) = true) ∧
+    (∀ o t, (refHead d off s).tok = some (o, t) →
+      off ≤ o ∧ t ≠ [] ∧ (s.drop (o - off)).take t.length = t ∧ Free d t ∧ o + t.length ≤ (refHead d off s).next ∧
+      (∀ j, j < o - off → d (s.getD j 0) = true) ∧
+      ((refHead d off s).cut = some (o + t.length) ∨
+        ((refHead d off s).cut = none ∧ o + t.length = off + s.length))) := by
+  have hl := lead_len d s
+  have ht := tok_len d (s.dropWhile d)
+  have hs1 := dropWhile_eq_drop d s
+  have hs2 := dropWhile_eq_drop (fun c => !d c) (s.dropWhile d)
+  have hlead : ∀ j, j < (s.takeWhile d).length → d (s.getD j 0) = true := by
+    intro j hj
+    have hmem := mem_takeWhile_true d s ((s.takeWhile d)[j]) (List.getElem_mem hj)
+    have hsplit := List.takeWhile_append_dropWhile (p := d) (l := s)
+    have h := List.getElem?_append_left (l₂ := s.dropWhile d) hj
+    rw [hsplit, List.getElem?_eq_getElem hj] at h
+    have : s.getD j 0 = (s.takeWhile d)[j] := by simp [h]
+    rw [this]; exact hmem
+  unfold refHead refRest
+  by_cases h1 : s.dropWhile d = []
+  · simp only [h1, if_true, List.length_nil] at hl ⊢
+    refine ⟨by omega, by omega, ?_, by simp, by simp⟩
+    simp only [List.dropWhile_nil, List.drop_nil]
+    rw [List.drop_eq_nil_of_le (by omega)]
+  · have htne : (s.dropWhile d).takeWhile (fun c => !d c) ≠ [] := by
+      cases hc : s.dropWhile d with
+      | nil => exact absurd hc h1
+      | cons c rest' =>
+        have := dropWhile_head_false d s c rest' hc
+        simp [this]
+    have htake : (s.drop (s.takeWhile d).length).take ((s.dropWhile d).takeWhile (fun c => !d c)).length
+        = (s.dropWhile d).takeWhile (fun c => !d c) := by
+      rw [← hs1]
+      conv => lhs; arg 2; rw [← List.takeWhile_append_dropWhile (p := fun c => !d c) (l := s.dropWhile d)]
+      exact List.take_left' rfl
+    simp only [h1, if_false]
+    by_cases h2 : (s.dropWhile d).dropWhile (fun c => !d c) = []
+    · simp only [h2, if_true, List.length_nil] at ht ⊢
+      refine ⟨by omega, by omega, ?_, by simp, ?_⟩
+      · rw [List.drop_nil, List.drop_eq_nil_of_le (by omega)]
+      · intro o t hx
+        simp only [Option.some.injEq, Prod.mk.injEq] at hx
+        obtain ⟨rfl, rfl⟩ := hx
+        refine ⟨by omega, htne, ?_, free_takeWhile d _, by omega, ?_, Or.inr ⟨trivial, by omega⟩⟩
+        · rw [Nat.add_sub_cancel_left]; exact htake
+        · rw [Nat.add_sub_cancel_left]; exact hlead
+    · simp only [h2, if_false]
+      have h2pos : 0 < ((s.dropWhile d).dropWhile (fun c => !d c)).length := List.length_pos_iff.mpr h2
+      refine ⟨by omega, by omega, ?_, ?_, ?_⟩
+      · rw [hs2, hs1, List.drop_drop, List.drop_drop]
+        congr 1; omega
+      · intro c hc
+        simp only [Option.some.injEq] at hc
+        subst hc
+        refine ⟨by omega, by omega, by omega, ?_⟩
+        cases h2c : (s.dropWhile d).dropWhile (fun c => !d c) with
+        | nil => exact absurd h2c h2
+        | cons x rest2 =>
+          have hx := dropWhile_head_false (fun c => !d c) _ x rest2 h2c
+          have hdrop : s.drop ((s.takeWhile d).length +
+              ((s.dropWhile d).takeWhile (fun c => !d c)).length) = x :: rest2 := by
+            rw [← h2c, hs2, hs1, List.drop_drop]
+          have := getD_of_drop s _ x rest2 hdrop
+          have e : off + (s.takeWhile d).length + ((s.dropWhile d).takeWhile (fun c => !d c)).length - off
+              = (s.takeWhile d).length + ((s.dropWhile d).takeWhile (fun c => !d c)).length := by omega
+          rw [e, this]; simpa using hx
+      · intro o t hx
+        simp only [Option.some.injEq, Prod.mk.injEq] at hx
+        obtain ⟨rfl, rfl⟩ := hx
+        refine ⟨by omega, htne, ?_, free_takeWhile d _, by omega, ?_, Or.inl rfl⟩
+        · rw [Nat.add_sub_cancel_left]; exact htake
+        · rw [Nat.add_sub_cancel_left]; exact hlead
+
+/-- **each returned token is a substring of the original string at its offset, no call cuts inside it, and the
+position behind it is cut (by the call that returned it) or is the end of the string** -/
+theorem refSeq_tok_isolated (dss : List (Nat → Bool)) (off : Nat) (s : List Nat) :
+    ∀ r ∈ refSeq dss off s, ∀ o t, r.tok = some (o, t) →
+      off ≤ o ∧ (s.drop (o - off)).take t.length = t ∧
+      (∀ r' ∈ refSeq dss off s, ∀ c, r'.cut = some c → c < o ∨ o + t.length ≤ c) ∧
+      (o + t.length = off + s.length ∨ ∃ r' ∈ refSeq dss off s, r'.cut = some (o + t.length)) := by
+  induction dss generalizing off s with
+  | nil => intro r hr; simp [refSeq] at hr
+  | cons d rest ih =>
+    intro r hr o t htok
+    obtain ⟨f1, f2, f3, f4, f5⟩ := refHead_facts d off s
+    rw [refSeq_cons] at hr ⊢
+    have hb := refSeq_bounds rest (refHead d off s).next (refRest d s)
+    have hrl : (refHead d off s).next + (refRest d s).length = off + s.length := by
+      rw [f3, List.length_drop]; omega
+    rcases List.mem_cons.mp hr with rfl | hr
+    · obtain ⟨g1, g2, g3, g4, g5, _, g6⟩ := f5 o t htok
+      refine ⟨g1, g3, ?_, ?_⟩
+      · intro r' hr' c hc
+        rcases List.mem_cons.mp hr' with rfl | hr'
+        · rcases g6 with g | g
+          · rw [g] at hc; cases hc; exact Or.inr (Nat.le_refl _)
+          · rw [g.1] at hc; cases hc
+        · have := ((hb r' hr').2.2.1 c hc).1
+          exact Or.inr (by omega)
+      · rcases g6 with g | g
+        · exact Or.inr ⟨_, List.mem_cons_self, g⟩
+        · exact Or.inl g.2
+    · obtain ⟨i1, i2, i3, i4⟩ := ih _ _ r hr o t htok
+      refine ⟨by omega, ?_, ?_, ?_⟩
+      · rw [f3, List.drop_drop] at i2
+        have e : (refHead d off s).next - off + (o - (refHead d off s).next) = o - off := by omega
+        rw [e] at i2; exact i2
+      · intro r' hr' c hc
+        rcases List.mem_cons.mp hr' with rfl | hr'
+        · have := f4 c hc
+          exact Or.inl (by omega)
+        · exact i3 r' hr' c hc
+      · rcases i4 with i | ⟨r', hr', hc⟩
+        · exact Or.inl (by omega)
+        · exact Or.inr ⟨r', List.mem_cons_of_mem _ hr', hc⟩
+
+/-- **only delimiter positions are cut**: the cell a call overwrites lies inside the string and holds a character of
+THAT call's delimiter set; the token a call returns contains no character of that call's delimiter set and everything
+between the call's starting point and the token is a delimiter -/
+theorem refSeq_call_facts (dss : List (Nat → Bool)) (off : Nat) (s : List Nat) :
+    ∀ q ∈ List.zip dss (refSeq dss off s),
+      (∀ c, q.2.cut = some c → off ≤ c ∧ c - off < s.length ∧ q.1 (s.getD (c - off) 0) = true) ∧
+      (∀ o t, q.2.tok = some (o, t) → Free q.1 t) := by
+  induction dss generalizing off s with
+  | nil => intro q hq; simp [refSeq] at hq
+  | cons d rest ih =>
+    intro q hq
+    obtain ⟨f1, f2, f3, f4, f5⟩ := refHead_facts d off s
+    rw [refSeq_cons, List.zip_cons_cons] at hq
+    rcases List.mem_cons.mp hq with rfl | hq
+    · refine ⟨fun c hc => ?_, fun o t ht => (f5 o t ht).2.2.2.1⟩
+      obtain ⟨a, _, b, c'⟩ := f4 c hc
+      exact ⟨a, b, c'⟩
+    · obtain ⟨j1, j2⟩ := ih _ _ q hq
+      refine ⟨fun c hc => ?_, j2⟩
+      obtain ⟨a, b, c'⟩ := j1 c hc
+      rw [f3, List.length_drop] at b
+      rw [f3] at c'
+      refine ⟨by omega, by omega, ?_⟩
+      have e : s.getD (c - off) 0 = (s.drop ((refHead d off s).next - off)).getD (c - (refHead d off s).next) 0 := by
+        simp only [List.getD_eq_getElem?_getD, List.getElem?_drop]
+        congr 2; omega
+      rw [e]; exact c'
+
 end SafeC.TokSpec
